@@ -106,17 +106,25 @@ prop("C07", level="proof", bounded=True,
      trusted_base=["Fiber.getDefault / Fiber.isEmpty ghost abstractions (tier B)"])
 
 prop("C05", level="exploration", bounded=True,
-     technique="bounded: executable contract of populate on the real generator over an exhaustively enumerated small scope; deductive core for callees only",
-     text="Bounded (not proved): populate is run on the real library for destination x source pairs over 3 coordinates with payloads {absent,0,1,2} and "
-          "every loop body (each offered reference assigned / accumulated / left / reset / set, all sequences up to the number of offered references), "
-          "destination default 0 and 1, uncompressed sources, nested populate at depth 2 (all pairs over 2 coordinates incl. empty sub-fibers, 9 body "
-          "patterns) and seeded random depth-2/3 pairs; at every yield the offered coordinate/payload/reference value, WF and the rank lists are "
-          "checked, and after the loop the content, the absence of left-behind elements/sub-fibers and the source's snapshot. "
-          "Proved core: the callees populate relies on (getPayload(allocate=False,start_pos), _create_payload(pos=), _coord2pos, setSavedPos, Rank.pop, "
-          "Payload in-place operators). A contract for lshift_iterator itself (WF at every yield, offered sequence == source sequence, callee "
-          "preconditions = position arithmetic) generates 950 obligations of which 20 are solver-unstable, so it is not claimed.",
-     note="Exploration level: the statement itself is decided only within the stated bounds. Trusted for the proved core: pyvc, z3/cvc5, bisect.",
-     also=["Fiber.getPayload", "Fiber._create_payload", "Fiber._coord2pos", "Fiber.setSavedPos", "Rank.pop", "Payload.__ilshift__", "Payload.__iadd__"],
+     technique="deductive contract on the real lshift generator at a leaf destination rank (pyvc, ~1240 obligations) + bounded executable contract over an enumerated small scope for nesting, interior ranks and tracing",
+     text="Proved (pyvc, unbounded in fiber lengths, leaf destination rank, collection off, no start position): the real lshift_iterator.__iter__ yields exactly "
+          "the source's coordinate sequence with the source's payload objects; at every yield the offered reference is the box stored at that coordinate in the "
+          "destination, showing the default when it was just created; a loop body that may write any value into the offered box at each yield leaves, after the loop, "
+          "no element at an offered coordinate whose value is the default (kept only what was written); the destination stays well-formed with pairwise distinct boxes "
+          "at every yield and at exit; every callee precondition (getPayload start position, _create_payload(pos=) insertion position, bisect/del index) holds - "
+          "that is the a_pos position arithmetic.  Proved callees: getPayload(allocate=False,start_pos), _create_payload(pos=), _coord2pos, setSavedPos, Rank.pop, "
+          "Payload in-place operators.  "
+          "Bounded (not proved): coordinates of the destination outside the source are untouched, interior ranks (sub-fiber creation/removal with the next-rank pop), "
+          "nested populate, uncompressed sources and the source's snapshot: populate is run on the real library for destination x source pairs over 3 coordinates "
+          "with payloads {absent,0,1,2} and every loop body (each offered reference assigned / accumulated / left / reset / set, all sequences up to the number of "
+          "offered references), destination default 0 and 1, nested populate at depth 2 (all pairs over 2 coordinates incl. empty sub-fibers, 9 body patterns) and "
+          "seeded random depth-2/3 pairs; at every yield the offered coordinate/payload/reference value, WF and the rank lists are checked, and after the loop the "
+          "content, the absence of left-behind elements/sub-fibers and the source's snapshot.",
+     note="Exploration level is claimed because the statement's nested / interior-rank / untouched-coordinates parts are decided only within the stated bounds; the "
+          "leaf-rank generator itself is proved. Trusted for the proved part: pyvc, z3/cvc5, bisect; the loop body is modelled as an arbitrary write to the value of the "
+          "box offered at that yield (a body that keeps an earlier reference and writes it later is outside the property's quantifier).",
+     also=["Fiber.getPayload", "Fiber._create_payload", "Fiber._coord2pos", "Fiber.setSavedPos", "Rank.pop", "Payload.__ilshift__", "Payload.__iadd__",
+           "__lshift__.lshift_iterator.__iter__"],
      trusted_base=["bisect.bisect_left"])
 
 prop("C02", level="exploration", bounded=True,
